@@ -494,8 +494,23 @@ pub fn check_c12(case: &Case, st: &mut Stats) -> Verdict {
         if sticky {
             st.c.inc("sticky_fault_runs");
         }
-        if let Some(v) = run_with(vec![FaultSpec { k, err, sticky, merge_nth: 0 }], st) {
+        if let Some(v) = run_with(vec![FaultSpec { k, err, sticky, merge_nth: 0, panic: false }], st) {
             return Some(v);
+        }
+    }
+    // end-of-file is the error kind that decoders and `read_exact`-style loops interpret rather than
+    // pass on: one scenario in four (and every scenario with multi-megabyte blocks) is enumerated a
+    // second time with UnexpectedEof at every component call
+    let huge = match case {
+        Case::Cursor(c) => matches!(c.spec.entries, Entries::Noise { vlen, .. } if vlen >= (1 << 20)),
+        _ => false,
+    };
+    if huge || mix(seed, 0xE0F) % 4 == 0 {
+        st.c.inc("scenarios_enumerated_again_with_unexpected_eof");
+        for k in 1..=n {
+            if let Some(v) = run_with(vec![FaultSpec { k, err: 6, sticky: false, merge_nth: 0, panic: false }], st) {
+                return Some(v);
+            }
         }
     }
     // second family: two faults per run
@@ -508,7 +523,7 @@ pub fn check_c12(case: &Case, st: &mut Stats) -> Verdict {
             if a == b {
                 continue;
             }
-            let faults = vec![FaultSpec { k: a, err: rng.below(40) as u8, sticky: false, merge_nth: 0 }, FaultSpec { k: b, err: rng.below(40) as u8, sticky: false, merge_nth: 0 }];
+            let faults = vec![FaultSpec { k: a, err: rng.below(40) as u8, sticky: false, merge_nth: 0, panic: false }, FaultSpec { k: b, err: rng.below(40) as u8, sticky: false, merge_nth: 0, panic: false }];
             st.c.inc("double_fault_runs");
             if let Some(v) = run_with(faults, st) {
                 return Some(v);
@@ -568,6 +583,8 @@ pub fn gen_c17(rng: &mut Rng, tier: Tier) -> Case {
             s.env = EnvPlan::whole();
         }
         Case::Sort(s)
+    } else if rng.chance(1, 6) {
+        crate::props_cursor::gen_clone_alias(rng, tier)
     } else {
         let mut c = gen_any_small(rng, tier, false);
         let mut env = gen::gen_env(rng, true);
@@ -579,16 +596,22 @@ pub fn gen_c17(rng: &mut Rng, tier: Tier) -> Case {
         // they must stay memory-safe
         if rng.chance(1, 3) {
             for _ in 0..rng.urange(1, 2) {
-                env.faults.push(crate::env::FaultSpec { k: rng.log_uniform(1, 400), err: rng.below(40) as u8, sticky: false, merge_nth: 0 });
+                env.faults.push(crate::env::FaultSpec { k: rng.log_uniform(1, 400), err: rng.below(40) as u8, sticky: false, merge_nth: 0, panic: false });
             }
             env.faults.sort_by_key(|f| f.k);
             env.faults.dedup_by_key(|f| f.k);
+            // one such scenario in three: the component does not fail, it panics; the objects are
+            // then dropped by the unwinding caller
+            if rng.chance(1, 3) {
+                env.faults.truncate(1);
+                env.faults[0].panic = true;
+            }
         }
         // and one merge in four that keeps iterating after its merge function failed once
         if let Case::Merge(m) = &mut c {
             if rng.chance(1, 4) {
                 m.out_mode = 0;
-                env.faults = vec![crate::env::FaultSpec { k: 0, err: 0, sticky: false, merge_nth: rng.log_uniform(1, 40) as u32 }];
+                env.faults = vec![crate::env::FaultSpec { k: 0, err: 0, sticky: false, merge_nth: rng.log_uniform(1, 40) as u32, panic: rng.chance(1, 4) }];
             }
         }
         with_env(&c, env)
@@ -630,6 +653,8 @@ pub fn check_c17(case: &Case, st: &mut Stats) -> Verdict {
             let documented = matches!(&rec.res, Res::Panic(m) if m.contains("unable to allocate"));
             if null_fired && documented {
                 st.c.inc("fired.null_allocation_documented_panic");
+            } else if matches!(&rec.res, Res::Panic(m) if m.contains("SIM-COMPONENT-PANIC")) {
+                st.c.inc("component_panic_unwound_through_the_library");
             } else if faulty && !r.env.fired().is_empty() {
                 // what a call returns (or whether it panics) once the caller went on after a failed
                 // component is not this property's business; only memory safety and size arithmetic are
@@ -661,6 +686,28 @@ pub fn check_c17(case: &Case, st: &mut Stats) -> Verdict {
                 if after > 0 {
                     st.c.inc("probe.next_called_after_the_merge_function_failed");
                 }
+            }
+        }
+        // the same evidence on the read path: a key or value handed back by a cursor or an iterator
+        // that holds a run of 8 poison bytes although nothing stored in the file does
+        let stored: Option<Vec<(Vec<u8>, Vec<u8>)>> = match case {
+            Case::Cursor(c) if c.spec.entries.len() <= 5000 => Some(c.spec.entries.materialize()),
+            Case::Iter(c) if c.spec.entries.len() <= 5000 => Some(c.spec.entries.materialize()),
+            Case::File(c) if c.spec.entries.len() <= 5000 && c.big.is_none() => Some(c.spec.entries.materialize()),
+            _ => None,
+        };
+        if let Some(stored) = stored {
+            let has_run = |b: &[u8]| b.windows(8).any(|w| w.iter().all(|x| *x == 0xDD));
+            if !stored.iter().any(|(k, v)| has_run(k) || has_run(v)) {
+                for (i, rec) in r.recs.iter().enumerate() {
+                    if let Res::Entry(k, v) = &rec.res {
+                        if has_run(k) || has_run(v) {
+                            bad = Some(("use-after-free".to_string(), format!("call #{} {} handed back bytes made of the allocator's poison byte (key {}B, value {}B): they were read through a slice into freed memory", i, rec.op, k.len(), v.len())));
+                            break;
+                        }
+                    }
+                }
+                st.c.inc("read_path_results_inspected_for_poison");
             }
         }
         let setup = r.setup_err.clone();
